@@ -546,12 +546,15 @@ def output(out: OutputBuffer, aconf: AuditConf, banner: Optional[Banner], header
             if sshv == 1 or banner.protocol[0] == 1:
                 out.fail(banner_line)
                 out.fail('(gen) protocol SSH1 enabled')
+                program_retval = exitcodes.FAILURE  # A failure-level finding, like a failed algorithm: it decides the exit status.
             else:
                 out.good(banner_line)
 
             if not banner.valid_ascii:
                 # NOTE: RFC 4253, Section 4.2
                 out.warn('(gen) banner contains non-printable ASCII')
+                if program_retval != exitcodes.FAILURE:
+                    program_retval = exitcodes.WARNING
 
             software = Software.parse(banner)
             if software is not None:
